@@ -368,7 +368,8 @@ def r17_5(ctx: Ctx) -> None:
     for wname in ("_write_times", "_write_attributes"):
         w = fi.methods[wname]
         trues = [c for c in q.calls(w) if attr_tail(c) == "append" and c.args and isinstance(c.args[0], ast.Constant) and c.args[0].value is True]
-        comps = [n for n in walk(w.node) if isinstance(n, ast.Assign) and isinstance(n.value, ast.ListComp) and isinstance(n.value.elt, (ast.Compare, ast.BoolOp, ast.UnaryOp, ast.Call, ast.Name, ast.Subscript))
+        comps = [n for n in walk(w.node) if isinstance(n, (ast.Assign, ast.AnnAssign)) and isinstance(n.value, ast.ListComp)
+                 and isinstance(n.value.elt, (ast.Compare, ast.BoolOp, ast.UnaryOp, ast.Call, ast.Name, ast.Subscript))
                  and "files" in norm(n.value.generators[0].iter)]
         if not trues and comps:
             for cpn in comps:
@@ -392,7 +393,8 @@ def r17_5(ctx: Ctx) -> None:
             facts = q.facts_at(w, e)
             vecs = {c.func.value.id for c in q.calls(w) if attr_tail(c) == "append" and isinstance(c.func.value, ast.Name) and c.args and isinstance(c.args[0], ast.Constant)
                     and isinstance(c.args[0].value, bool)} | {n.targets[0].id for n in walk(w.node) if isinstance(n, ast.Assign) and isinstance(n.targets[0], ast.Name)
-                                                                and isinstance(n.value, ast.ListComp)}
+                                                                and isinstance(n.value, ast.ListComp)} \
+                | {n.target.id for n in walk(w.node) if isinstance(n, ast.AnnAssign) and isinstance(n.target, ast.Name) and isinstance(n.value, ast.ListComp)}
             ok = any(pol and isinstance(cd, ast.Subscript) and norm(cd.value) in vecs for cd, pol in facts)
             # for flag, f in zip(vector, files): if flag: ...
             for lp in q.enclosing_loops(w, e):
